@@ -1,6 +1,7 @@
 package renderb
 
 import (
+	"encoding/json"
 	"fmt"
 	"io"
 	"os"
@@ -13,6 +14,9 @@ import (
 // dbgRender: h-renderb dbg-renderb svg <layout> [combo] < file.d2   |   dbg-renderb c30 <site> <go-quoted payload> [group]
 func dbgRender(args []string) {
 	switch args[0] {
+	case "time":
+		src, _ := io.ReadAll(os.Stdin)
+		dbgTime(string(src))
 	case "svg":
 		src, _ := io.ReadAll(os.Stdin)
 		combo := ""
@@ -41,25 +45,17 @@ func dbgRender(args []string) {
 		if err != nil {
 			p = args[2]
 		}
-		site := c30SiteByName(args[1])
-		src := site.Src(dq(p), p)
-		fmt.Println(src)
-		group := "base"
+		opts := ""
 		if len(args) > 3 {
-			group = args[3]
+			opts = args[3]
 		}
+		b, _ := json.Marshal(c30OneIn{Site: args[1], Payload: p, Opts: opts})
 		t0 := time.Now()
-		cerr, outs := c30RenderAll(src, site.Multi, c30Combos(group))
-		fmt.Println("compile err:", cerr, time.Since(t0))
-		for i, c := range c30Combos(group) {
-			if cerr != nil {
-				break
-			}
-			fmt.Printf("[%s] err=%v docs=%d\n", c, outs[i].err, len(outs[i].docs))
-			for _, doc := range outs[i].docs {
-				x := scanXML(doc, c30Marker, false)
-				fmt.Println("   xml:", x.ErrKind, x.Err, x.NameHits)
-			}
+		r := c30One(string(b))
+		fmt.Println(r.Outcome, time.Since(t0))
+		if r.Fail != nil {
+			fmt.Println(r.Fail.Class)
+			fmt.Println(r.Fail.Detail)
 		}
 	}
 }
